@@ -28,10 +28,10 @@ package head
 //@   ghost verErr := false
 //@   ghost verOK := true
 //@   ghost idErr := false
-//@   at call UnmarshalPublicKey#1: after ghost keyErr := result1 != nil
-//@   at call Verify#1: after ghost verErr := result1 != nil
-//@   at call Verify#1: after ghost verOK := result0
-//@   at call IDFromPublicKey#1: after ghost idErr := result1 != nil
+//@   at call UnmarshalPublicKey: after ghost keyErr := result1 != nil
+//@   at call Verify: after ghost verErr := result1 != nil
+//@   at call Verify: after ghost verOK := result0
+//@   at call IDFromPublicKey: after ghost idErr := result1 != nil
 //@   ensures-local result1 != nil ==> len(s.Sig) == 0 || len(s.Pubkey) == 0 || keyErr || verErr || !verOK || idErr
 
 //@ func (*SignedHead).Sign
@@ -44,16 +44,16 @@ package head
 //@ func NewSignedHead
 //@   property C03
 //@   requires privKey != nil
-//@   at call Sign#1: assert arg1 == privKey && str(as(arg0.Head, "cidlink.Link").Cid.str) == str(headCid.str)
-//@   at call Sign#1: assert ite(str(topic) == str(""), arg0.Topic == nil, arg0.Topic != nil && str(*arg0.Topic) == str(topic))
+//@   at call Sign: assert arg1 == privKey && str(as(arg0.Head, "cidlink.Link").Cid.str) == str(headCid.str)
+//@   at call Sign: assert ite(str(topic) == str(""), arg0.Topic == nil, arg0.Topic != nil && str(*arg0.Topic) == str(topic))
 //@   ensures result1 == nil ==> result0 != nil
 
 // Decode returns a head only together with a nil error. That the decoded Head
 // is a CID link is bindnode/dag-json behaviour (ASSUMED).
 //@ func Decode
 //@   property C03
-//@   at call NewBuilder#1: after assume result != nil
-//@   at call Build#1: after assume result != nil
+//@   at call NewBuilder: after assume result != nil
+//@   at call Build: after assume result != nil
 //@   ensures result1 == nil ==> result0 != nil
 //@   ensures result1 != nil ==> result0 == nil
 //@   ensures-assumed result1 == nil ==> result0.Head != nil && typeis(result0.Head, "cidlink.Link")
@@ -61,6 +61,6 @@ package head
 //@ func UnwrapSignedHead
 //@   property C03
 //@   requires node != nil
-//@   at call NewBuilder#1: after assume result != nil
+//@   at call NewBuilder: after assume result != nil
 //@   ensures result1 == nil ==> result0 != nil
 //@   ensures result1 != nil ==> result0 == nil
